@@ -2,6 +2,8 @@ import AtreeProofs.MapInv
 import AtreeProofs.MapLemmas
 import AtreeProofs.Map.Empty
 import AtreeProofs.Map.TreeTop
+import AtreeProofs.Map.Limit
+import AtreeProofs.Map.Example
 /-
   C02 — Ordered map behaves as a dictionary under every operation history.
   PROPERTY THEOREMS: refinement of `OMap` operations to dictionary operations, for an arbitrary
@@ -52,7 +54,16 @@ theorem set_refines (T : Nat) (hT : legalThreshold T = true) (D : DigestFn (r + 
         m'.count = (if (dictLookup m.toList k).isSome then m.count else m.count + 1) ∧
         MapInv T D m' ∧ CtxOk m' c' ∧ m'.rootID = m.rootID ∧ m'.ty = m.ty ∧ m'.seed = m.seed) ∨
     (m.set cfg k v c = .error .collisionLimit ∧ dictLookup m.toList k = none) := by
-  sorry
+  have hs := OMap.set_spec hT hcfg h hk hv c hc
+  by_cases hl : TLimited cfg m.d m.root k
+  · right
+    exact ⟨hs.1 hl, (dictLookup_none_iff h.allKeyOk hk).mpr (tlimited_absent hT m.d true m.root h.sinv hl)⟩
+  · left
+    obtain ⟨old, m', c', heq, hp⟩ := hs.2 hl
+    obtain ⟨e1, _, _, e4⟩ := hp.eff.spec h.allKeyOk h.distinct hk
+    refine ⟨old, m', c', heq, e1, e4, ?_, hp.inv, hp.ctx, hp.rootID, hp.ty, hp.seed⟩
+    rw [hp.count, ← e1]
+    cases old <;> simp
 
 /-- Removal: key-not-found for an absent key (and nothing else can go wrong); otherwise returns the
     stored key and value and the dictionary loses exactly that key. -/
@@ -66,13 +77,23 @@ theorem remove_refines (T : Nat) (hT : legalThreshold T = true) (D : DigestFn (r
            dictLookup m'.toList k' = if k'.same k then none else dictLookup m.toList k') ∧
         m'.count = m.count - 1 ∧ MapInv T D m' ∧ CtxOk m' c' ∧
         m'.rootID = m.rootID ∧ m'.ty = m.ty ∧ m'.seed = m.seed := by
-  sorry
+  have hs := OMap.remove_spec hT hcfg h hk c hc
+  cases hd : dictLookup m.toList k with
+  | none =>
+    simp only
+    exact hs.1 ((dictLookup_none_iff h.allKeyOk hk).mp hd)
+  | some v =>
+    simp only
+    obtain ⟨m', c', heq, hp⟩ := hs.2 v (mem_of_dictLookup_some h.allKeyOk hk hd)
+    obtain ⟨_, _, _, e4⟩ := hp.eff.spec h.allKeyOk h.distinct hk
+    exact ⟨k, m', c', heq, MKey.same_self k, e4, hp.count, hp.inv, hp.ctx, hp.rootID, hp.ty, hp.seed⟩
 
 /-- Bulk pop: every pair exactly once (in reverse iteration order), the map ends up empty. -/
 theorem pop_refines (T : Nat) (hT : legalThreshold T = true) (D : DigestFn (r + 1)) (m : OMap r)
     (h : MapInv T D m) (c : Ctx) (hc : CtxOk m c) :
     (m.popIterate c).1 = m.toList.reverse ∧ (m.popIterate c).2.1.toList = [] ∧ (m.popIterate c).2.1.count = 0 ∧
     MapInv T D (m.popIterate c).2.1 ∧ (m.popIterate c).2.1.rootID = m.rootID := by
+  have _ := hc
   have hinl : m.isInlined = false := h.standalone
   have hres : (m.popIterate c).2.1 = ⟨0, emptyRoot r m.rootID, m.ty, 0, m.seed⟩ := by
     simp only [OMap.popIterate, hinl, emptyRoot]
@@ -87,5 +108,45 @@ theorem pop_refines (T : Nat) (hT : legalThreshold T = true) (D : DigestFn (r + 
 
 theorem count_refines (T : Nat) (D : DigestFn (r + 1)) (m : OMap r) (h : MapInv T D m) :
     m.count = m.toList.length := h.count_eq
+
+/-! ### Non-vacuity
+
+A concrete map is built by RUNNING the model: two digest levels (`r = 1`), threshold 256, a digest
+function that maps a key to the hundreds and tens digit of its payload (so collisions at the
+first level, at both levels, and none all occur), collision limit 1; 19 `set`s and one `remove`
+(`MapExample.run`).  The invariant and the context hypothesis hold for it, the map has an index
+slab root over several data slabs, an inline group, an external group and last-level lists, so
+the hypotheses of the theorems above are satisfiable in a non-trivial state. -/
+section NonVacuity
+open MapExample
+
+example : MapInv 256 D2 run.1 := run_good.inv
+example : CtxOk run.1 run.2 := run_good.ctx
+example : CfgOk cfg2 256 run.1 := run_good.cfgok
+
+/-- the root has been split: an index slab over data slabs -/
+example : run.1.d = 1 := by decide
+example : run.1.count = 18 := by decide
+/-- first-level elements, leaf by leaf: singles, inline groups and one external group -/
+example : kinds run.1 =
+    ["single", "inline", "inline", "external", "inline", "inline", "single", "single", "single"] := by decide
+/-- iteration order = digest order; the fully colliding keys 311..314 in insertion order -/
+example : run.1.toList.map (fun p => p.1.pay) =
+    [11, 111, 112, 121, 211, 221, 311, 312, 313, 314, 321, 511, 521, 611, 621, 711, 811, 911] := by decide
+
+/-- the theorems apply to this state (all hypotheses discharged) -/
+example := get_refines 256 legal256 D2 cfg2 run.1 run_good.cfgok run_good.inv (key 313) (key_ok _)
+example := set_refines 256 legal256 D2 cfg2 run.1 run_good.cfgok run_good.inv (key 122) (key_ok _) (val 0)
+  (val_ok _) run.2 run_good.ctx
+example := remove_refines 256 legal256 D2 cfg2 run.1 run_good.cfgok run_good.inv (key 313) (key_ok _) run.2
+  run_good.ctx
+example := pop_refines 256 legal256 D2 run.1 run_good.inv run.2 run_good.ctx
+
+/-- and the model agrees with them on concrete instances -/
+example : dictLookup run.1.toList (key 313) = some (val 7) := by decide
+example : (run.1.has cfg2 (key 313)).toOption = some true := by decide
+example : (run.1.has cfg2 (key 315)).toOption = some false := by decide
+
+end NonVacuity
 
 end Atree.C02
